@@ -420,3 +420,93 @@ def blendPixelsG (n : Nat) : G (List RGBA × List RGBA) := do
   pure (back, src)
 
 end Ase.Gen
+
+namespace Ase.Gen
+open Ase Ase.Spec
+
+/-- is this chunk free of user-data context effects (may be inserted / removed anywhere) -/
+def isNoopItem : Item → Bool
+  | .colorProfile _ _ _ _ => true
+  | .ignorable _ _ => true
+  | _ => false
+
+def noopChunkG : G ChunkSpec := do
+  if ← chance 1 3 then
+    pure ⟨.colorProfile (UInt16.ofNat (← below 2)) (UInt16.ofNat ((← below 100) * 2)) (← u32) (← bytesN 8), ← padG true⟩
+  else
+    pure ⟨.ignorable (← pick [0x2006, 0x2016, 0x2017]) (← bytesN (← below 12)), []⟩
+
+/-- re-draw every representational choice of an item, keeping its meaning -/
+def reencodeItem (depth : Nat) : Item → G Item
+  | .layer l => do
+      let hi ← if ← chance 1 2 then (do let x ← below 512; pure (x * 128)) else pure 0
+      let rnd ← u32
+      pure (.layer { l with flags := UInt16.ofNat (l.flags.toNat % 128 + hi), defW := ← u16, defH := ← u16,
+                            res1 := ← byte, res2 := ← u16,
+                            tileset := if l.ltype.toNat == 2 then l.tileset else rnd })
+  | .cel c => do
+      let body ← (match c.body with
+        | .image w h px _ => do
+            if ← chance 1 2 then pure (CelBody.image w h px none)
+            else pure (CelBody.image w h px (some (Zlib.deflateStored px)))
+        | b => pure b)
+      pure (.cel { c with reserved := ← bytesN 7, body := body })
+  | .tags _ ts => do
+      let ts' ← ts.mapM (fun t => do pure { t with reserved := ← bytesN 6, color := ← u32 })
+      pure (.tags (← bytesN 8) ts')
+  | .slice s => do
+      let hi ← if ← chance 1 2 then (do let x ← below 100; pure (x * 4)) else pure 0
+      pure (.slice { s with flags := UInt32.ofNat (s.flags.toNat % 4 + hi), reserved := ← u32 })
+  | .palette _ first _ es => do
+      let es' ← es.mapM (fun e => do
+        let hi ← if ← chance 1 2 then (do let x ← below 100; pure (x * 2)) else pure 0
+        let nm ← nameG
+        pure { e with flags := UInt16.ofNat (e.flags.toNat % 2 + hi),
+                      name := if e.flags.toNat % 2 == 1 then e.name else nm })
+      pure (.palette (← u32) first (← bytesN 8) es')
+  | .userData f t c => do
+      let hi ← if ← chance 1 2 then (do let x ← below 1000; pure (x * 4)) else pure 0
+      let nm ← nameG
+      let col ← rgbaG
+      pure (.userData (UInt32.ofNat (f.toNat % 4 + hi)) (if f.toNat % 2 == 1 then t else nm)
+              (if (f.toNat / 2) % 2 == 1 then c else col))
+  | .extFiles _ fs => do
+      let fs' ← fs.mapM (fun f => do pure (f.1, ← bytesN 8, f.2.2))
+      pure (.extFiles (← bytesN 8) fs')
+  | .tileset t => do
+      let hi ← if ← chance 1 2 then (do let x ← below 50; pure (x * 8)) else pure 0
+      let r1 ← u32
+      let r2 ← u32
+      pure (.tileset { t with flags := UInt32.ofNat (t.flags.toNat % 8 + hi), reserved := ← bytesN 14,
+                              clen := ← u32,
+                              extFile := if t.flags.toNat % 2 == 1 then t.extFile else r1,
+                              extTileset := if t.flags.toNat % 2 == 1 then t.extTileset else r2 })
+  | other => let _ := depth; pure other
+
+/-- a program with the same meaning and fresh encoding choices: padding, raw/zlib, count field,
+    slack, unused fields, pixel ratio, ignorable chunks, trailer -/
+def reencode (p : Program) : G Program := do
+  let depth := p.header.depth.toNat
+  let frames ← p.frames.mapM (fun f => do
+    let kept := f.chunks.filter (fun c => !isNoopItem c.item)
+    let mut out : List ChunkSpec := []
+    for c in kept do
+      -- noop chunks may go anywhere (also between an entity and its user data)
+      if ← chance 1 6 then out := out ++ [← noopChunkG]
+      out := out ++ [⟨← reencodeItem depth c.item, ← padG true⟩]
+    if ← chance 1 6 then out := out ++ [← noopChunkG]
+    pure { f with oldCountOnly := ← chance 1 2, oldField := ← u16, ph := ← u16,
+                  slack := UInt32.ofNat (← below 2000), chunks := out })
+  let ratio ← pick [(0, 0), (1, 1), (0, 5), (7, 0), (1, 1), (0, 1), (1, 0)]
+  let h := p.header
+  let rb ← byte
+  let header : HeaderSpec :=
+    { h with fileSize := ← u32, flags := ← u32, speed := ← u16, ph1 := ← u32, ph2 := ← u32,
+             tci := if depth == 8 then h.tci else rb,
+             ign1 := ← byte, ign2 := ← u16, numColors := ← u16,
+             pixelW := UInt8.ofNat ratio.1, pixelH := UInt8.ofNat ratio.2,
+             gridX := ← i16, gridY := ← i16, gridW := ← u16, gridH := ← u16, reserved := ← bytesN 84 }
+  let trailer ← if ← chance 1 2 then bytesN (← range 1 60) else pure []
+  pure ⟨header, frames, trailer⟩
+
+end Ase.Gen
